@@ -912,6 +912,15 @@ class _CopyFromZipFileExecutor:
         return f"{type(self).__name__}({self.root} -> {self.job})"
 
 
+def _zip_path_is_within(name, directory):
+    """Check whether the archive member name is the directory or located below it.
+
+    Archive member names always use forward slashes. The comparison is made on
+    whole path components, so that 'a/10' is not considered part of 'a/1'.
+    """
+    return name == directory or name.startswith(directory.rstrip("/") + "/")
+
+
 def _analyze_zipfile_for_import(zipfile, project, schema):
     """Validate paths in zipfile.
 
@@ -984,7 +993,7 @@ def _analyze_zipfile_for_import(zipfile, project, schema):
     for name in sorted(dirs):
         cont = False
         for skip in skip_subdirs:
-            if name.startswith(skip):
+            if _zip_path_is_within(name, skip):
                 cont = True
                 break
         if cont:
@@ -1005,7 +1014,7 @@ def _analyze_zipfile_for_import(zipfile, project, schema):
         )
 
     for src, job in mappings.items():
-        _names = [name for name in names if name.startswith(src)]
+        _names = [name for name in names if _zip_path_is_within(name, src)]
         copy_executor = _CopyFromZipFileExecutor(zipfile, src, job, _names)
         yield src, copy_executor
 
